@@ -76,3 +76,35 @@ Theorem C14_declarations_and_statements_graphs :
     run (flat_map f_rows (emitted evs)) = Valid (ns_events o d ++ flat_map event_of_quad (d_stmts d)).
 Proof. exact graphs_stream_valid_ns. Qed.
 Print Assumptions C14_declarations_and_statements_graphs.
+
+(* ---- and from bytes: serializer -> write_delimited -> parser yields the declarations, in order,
+   then exactly the statements, for the three stream classes ---- *)
+From PJ.Model Require Import Wire.
+From PJ.Proofs Require Import WireRT BytesE2E BytesRoundTrip.
+Theorem C14_bytes_declarations_then_statements_triples :
+  forall (o : soptions) (s s' : stream) (d : sdata) (evs : list tev) (grouped : bool),
+    stream_new TripleStream Generic o = Ok s -> cfg_ok o (st_logical s) -> fl_rows (st_flow s) = [] ->
+    triples_stream_frames d s = (s', evs) -> raised evs = None -> Forall small (emitted evs) ->
+    let r := parse_stream Generic grouped false (write_delimited (emitted evs)) in
+    flat_events r = ns_events o d ++ flat_map event_of_triple (d_stmts d) /\ pr_end r = PEnd.
+Proof. exact triples_bytes_round_trip_ns. Qed.
+Print Assumptions C14_bytes_declarations_then_statements_triples.
+
+Theorem C14_bytes_declarations_then_statements_quads :
+  forall (o : soptions) (s s' : stream) (d : sdata) (evs : list tev) (grouped : bool),
+    stream_new QuadStream Generic o = Ok s -> cfg_ok o (st_logical s) -> fl_rows (st_flow s) = [] ->
+    quads_stream_frames d s = (s', evs) -> raised evs = None -> Forall small (emitted evs) ->
+    let r := parse_stream Generic grouped false (write_delimited (emitted evs)) in
+    flat_events r = ns_events o d ++ flat_map event_of_quad (d_stmts d) /\ pr_end r = PEnd.
+Proof. exact quads_bytes_round_trip_ns. Qed.
+Print Assumptions C14_bytes_declarations_then_statements_quads.
+
+Theorem C14_bytes_declarations_then_statements_graphs :
+  forall (o : soptions) (s s' : stream) (d : sdata) (evs : list tev) (grouped : bool),
+    stream_new GraphStream Generic o = Ok s -> cfg_ok o (st_logical s) -> fl_rows (st_flow s) = [] ->
+    forallb wf_quad (d_stmts d) = true ->
+    graphs_stream_frames_generic d s = (s', evs) -> raised evs = None -> Forall small (emitted evs) ->
+    let r := parse_stream Generic grouped false (write_delimited (emitted evs)) in
+    flat_events r = ns_events o d ++ flat_map event_of_quad (d_stmts d) /\ pr_end r = PEnd.
+Proof. exact graphs_bytes_round_trip_ns. Qed.
+Print Assumptions C14_bytes_declarations_then_statements_graphs.
